@@ -7,12 +7,17 @@
   normalised list; (2) the bytes it returned are exactly what the call's HEADERS/PUSH_PROMISE/CONTINUATION frames carry,
   in order; (3) a call that raises leaves the context untouched; (4) a peer HEADER_TABLE_SIZE change reaches the
   encoder once, when it is acknowledged.  (1)-(3) are proved at the level of `H2Stream.send_headers` and
-  `push_stream_in_band` for every stream state, header list and configuration; the connection-level wrappers
-  (`H2Connection.send_headers` / `push_stream`: priority, frame-size assertion, locally_pushed) are covered by the
+  `push_stream_in_band` for every stream state, header list and configuration, and for `H2Connection.send_headers`
+  as a whole (`C29_send_headers`: priority fields, frame-size assertion included) in every state satisfying the
+  connection invariant; `H2Connection.push_stream`'s wrapper (locally_pushed, the promised stream) is covered by the
   correspondence check and oracle_C13 (hence `_partial` below).
 -/
 import H2.Proofs.HeaderSend
 import H2.Model.ConnRecv
+import H2.Props.C29
+-- the connection-level `send_headers` (priority fields, frame-size assertion): context untouched on every raise
+-- @also H2.C29.C29_send_headers
+-- @also H2.C29.C29_every_history
 
 namespace H2.C13
 open H2 H2.Gen H2.Conn
